@@ -2719,12 +2719,18 @@ class Trimesh(Geometry3D):
         `self.face_normals` and `self.vertex_normals`.
         """
         with self._cache:
-            if "face_normals" in self._cache:
-                self.face_normals = self._cache["face_normals"] * -1.0
-            if "vertex_normals" in self._cache:
-                self.vertex_normals = self._cache["vertex_normals"] * -1.0
+            # get the normals before touching the faces
+            face_normals = self._cache.cache.get("face_normals")
+            vertex_normals = self._cache.cache.get("vertex_normals")
+            # reverse the winding first: the `face_normals` setter checks
+            # the passed normals against the *current* winding and would
+            # silently refuse negated normals for the un-flipped faces
             # fliplr makes array non-contiguous so cache checks slow
             self.faces = np.ascontiguousarray(np.fliplr(self.faces))
+            if face_normals is not None:
+                self.face_normals = face_normals * -1.0
+            if vertex_normals is not None:
+                self.vertex_normals = vertex_normals * -1.0
         # save our normals
         self._cache.clear(exclude=["face_normals", "vertex_normals"])
 
